@@ -1546,7 +1546,7 @@ func c03Metrics(c *Ctx) {
 		ps := ev.Run(fn)
 		st := ev.LoadField(ev.NewState(), ev.Param(fn, fn.Params[0].Name()), "state")
 		for _, p := range ps {
-			mid, env := lockEnvelope(p, "mtx")
+			mid, env := lockEnvelopeShared(p, "mtx")
 			if !env || len(mid) != 1 || !isCall(mid[0], inner) || mid[0].Recv != st || p.Exit != ExitReturn || p.Rets[0] != mid[0].Res[0] {
 				ok = false
 				c.Fail(c.fn(fn), c.P.FuncPos(fn), api+"() must be, under the breaker's mutex, exactly the current state's "+inner+"()", pathTrace(ev, p))
